@@ -144,7 +144,7 @@ func runC03(r *ev.Run, thorough bool) {
 	l := ev.NewLocal()
 	for i := range prims {
 		p := &prims[i]
-		ms := valenum.FieldMembers(&p.field, valenum.Opts{Big: thorough})
+		ms := valenum.FieldMembers(&p.field, valenum.Opts{Big: true})
 		for _, v := range ms {
 			key := ev.H(p.name + v.String())
 			l.Eval(key, true)
@@ -164,7 +164,7 @@ func runC03(r *ev.Run, thorough bool) {
 		if thorough {
 			k = 2
 		}
-		valenum.Enum(t, valenum.Opts{K: k, Canonical: true, Big: thorough}, func(c *valenum.Case) bool {
+		valenum.Enum(t, valenum.Opts{K: k, Canonical: true, Big: true}, func(c *valenum.Case) bool {
 			key := ev.H(t.QName() + c.V.String())
 			l.Eval(key, c.Base == "D" || c.NDev > 0)
 			l.States[key] = struct{}{}
